@@ -33,10 +33,8 @@ class ExtraReport(Report):
         return rc
 
 
-def run_resets(pid, tier, seed):
-    rep = ExtraReport(pid, tier, seed)
-    known = KnownFindings()
-    n = 200 if tier == "quick" else 3000
+def resets_cases(rep, seed, n, allpaths=True, prefix="gen"):
+    """(program after the real trace + dedup, the same after the real accfg-insert-resets) for n generated programs"""
     cases = []
     for k in range(n):
         # finding E01-a (known/E01/relaunch_in_region.mlir): a state that is launched again from inside a nested region is reset before
@@ -54,7 +52,7 @@ def run_resets(pid, tier, seed):
                 b.verify()
             except Exception as e:
                 rep.evaluations += 1
-                rep.violation(f"gen:{seed}:{k}{flag}", f"accfg-insert-resets raised {type(e).__name__}: {str(e)[:200]}",
+                rep.violation(f"{prefix}:{seed}:{k}{flag}", f"accfg-insert-resets raised {type(e).__name__}: {str(e)[:200]}",
                               {"source": str(a), "exception": traceback.format_exc(limit=6)})
                 continue
             fa, fb = funcs_of(a), funcs_of(b)
@@ -65,8 +63,16 @@ def run_resets(pid, tier, seed):
                 continue
             # finding E01-b (known/E01/one_branch_only.mlir): a state consumed on one branch only is not reset on the other path: the
             # all-paths clause is judged for programs without scf.if only
-            cases.append({"name": f"gen:{seed}:{k}{flag}", "extra": {"allpaths": 0 if "scf.if" in str(fa["f"]) else 1}, "A": ia, "B": ib, "argdom": argdom, "opqdom": opq,
-                          "text": str(fa["f"]), "after": str(fb["f"])})
+            cases.append({"name": f"{prefix}:{seed}:{k}{flag}", "extra": {"allpaths": 0 if ("scf.if" in str(fa["f"]) or not allpaths) else 1}, "A": ia, "B": ib,
+                          "argdom": argdom, "opqdom": opq, "text": str(fa["f"]), "after": str(fb["f"])})
+    return cases
+
+
+def run_resets(pid, tier, seed):
+    rep = ExtraReport(pid, tier, seed)
+    known = KnownFindings()
+    n = 200 if tier == "quick" else 3000
+    cases = resets_cases(rep, seed, n)
     rep.rule = (f"{n} generated accfg programs (gen_accfg) after the real accfg-trace-states, accfg-dedup; through the real accfg-insert-resets with and "
                 "without reset-after-await; TLC runs both programs for every trip count / branch outcome: contract resets")
     CH = 400
